@@ -19,9 +19,11 @@ import WtfModel.Gen.Recovery
     does NOT follow `Unwrap`), `errors.Is` as it behaves (it follows `Unwrap`);
   * the text of a root cause is what Go prints with the path replaced by `P` (so the model assumes the
     path itself contains none of the needles of the decision table -- see Props/C15.lean);
-  * durations are integers (ns); the back-off factor is an exact rational.  The code computes the delay
-    in float64 and truncates; the model computes over ℚ and truncates (`delayNs`).  Rounding is not
-    modelled (the correspondence compares with a tolerance of 1 ns / 1e-9);
+  * durations are integers (ns); the back-off factor is an exact rational, ±Inf or NaN (`RawFactor`).
+    `NewDatabaseRecovery` sanitises the configuration (`sanitize`).  The code computes the delay in float64
+    and truncates; the model computes over ℚ and truncates (`delayNs`), with float overflow to +Inf made
+    explicit where it changes the outcome.  Rounding is not modelled (the correspondence compares with a
+    tolerance of 1 ns / 1e-9);
   * a load attempt is a function of the attempt number (`Nat → Attempt`), so that files changing between
     attempts (transient faults) are expressible.
 -/
@@ -141,17 +143,54 @@ def loadWithPersonal (main personal : FileState) : Except Err (List Cmd) :=
 
 /-! ### retry -/
 
+/-- a float64 back-off factor as the caller may pass it -/
+inductive RawFactor
+  | fin (q : Rat) | posInf | negInf | nan
+deriving DecidableEq, Repr
+
+/-- a back-off factor as NewDatabaseRecovery stores it (`!(f >= 1)` has been replaced by 1, so NaN and
+    -Inf cannot occur; finite values below 1 appear only in the "why the clamp is needed" witnesses) -/
+inductive Factor
+  | fin (q : Rat) | posInf
+deriving DecidableEq, Repr
+
+/-- the `RetryConfig` handed to `NewDatabaseRecovery` (any int, any duration, any float64) -/
+structure RawCfg where
+  maxAttempts : Int
+  base : Int        -- BaseDelay, ns
+  max : Int         -- MaxDelay, ns
+  factor : RawFactor
+deriving Repr
+
+/-- the `retryConfig` field of a `DatabaseRecovery` -/
 structure Cfg where
   maxAttempts : Int
   base : Int        -- BaseDelay, ns
   max : Int         -- MaxDelay, ns
-  factor : Rat      -- BackoffFactor
+  factor : Factor   -- BackoffFactor
 deriving Repr
 
+/-- the clamps at the top of `NewDatabaseRecovery` -/
+def sanitize (c : RawCfg) : Cfg :=
+  { maxAttempts := if c.maxAttempts < 1 then 1 else c.maxAttempts,
+    base := if c.base < 0 then 0 else c.base,
+    max := if c.max < 0 then 0 else c.max,
+    factor := match c.factor with          -- `if !(f >= 1) { f = 1 }`
+      | .fin q => if 1 ≤ q then .fin q else .fin 1
+      | .posInf => .posInf
+      | .negInf => .fin 1
+      | .nan => .fin 1 }
+
+/-- what `sanitize` establishes -/
+def Cfg.Sane (c : Cfg) : Prop :=
+  1 ≤ c.maxAttempts ∧ 0 ≤ c.base ∧ 0 ≤ c.max ∧ (match c.factor with | .fin q => 1 ≤ q | .posInf => True)
+
 /-- `recovery.DefaultRetryConfig()` (regenerated) -/
-def defaultCfg : Cfg :=
+def defaultRaw : RawCfg :=
   { maxAttempts := Recovery.defaultMaxAttempts, base := Recovery.defaultBaseDelay, max := Recovery.defaultMaxDelay,
-    factor := mkRat Recovery.defaultBackoffFactor.num Recovery.defaultBackoffFactor.den }
+    factor := .fin (mkRat Recovery.defaultBackoffFactor.num Recovery.defaultBackoffFactor.den) }
+
+def defaultCfg : Cfg := sanitize defaultRaw
 
 /-- `shouldRetry`: no retry if any of the regenerated sentinel tests fires or the error is an *AppError
     of one of the regenerated types -/
@@ -161,16 +200,32 @@ def shouldRetry (e : Err) : Bool :=
     | .app t _ => !(Recovery.noRetryTypes.contains t)
     | _ => true
 
-/-- `calculateDelay` before the conversion to time.Duration -/
-def delayQ (cfg : Cfg) (attempt : Nat) : Rat :=
-  let d := (cfg.base : Rat) * cfg.factor ^ (attempt - 1)
-  if (cfg.max : Rat) < d then (cfg.max : Rat) else d
+/-- the cap: `if delay > MaxDelay { delay = MaxDelay }` -/
+def capQ (cfg : Cfg) (d : Rat) : Rat := if (cfg.max : Rat) < d then (cfg.max : Rat) else d
 
 /-- `time.Duration(x)`: truncation toward zero -/
 def truncQ (d : Rat) : Int := if 0 ≤ d then d.floor else d.ceil
 
-/-- `calculateDelay` -/
-def delayNs (cfg : Cfg) (attempt : Nat) : Int := truncQ (delayQ cfg attempt)
+/-- smallest power at which `math.Pow` answers +Inf (≈ 2^1024; the exact rounding boundary of
+    math.Pow is not modelled) -/
+def floatOverflow : Rat := 2 ^ 1024
+
+/-- `calculateDelay`.  The code computes `float64(base) * math.Pow(factor, attempt-1)` and caps it when it
+    exceeds MaxDelay *or is NaN*; the model computes over ℚ, with the two float corners that change the
+    outcome made explicit:
+    * `0 * +Inf = NaN` (zero base delay, power overflowing float64 or factor = +Inf) → MaxDelay;
+    * `negative * +Inf = -Inf` (only for unsanitised configurations) → `time.Duration(-Inf)`, which is
+      implementation-defined; MinInt64 on amd64. -/
+def delayNs (cfg : Cfg) (attempt : Nat) : Int :=
+  match cfg.factor with
+  | .fin q =>
+    let p := q ^ (attempt - 1)
+    if cfg.base = 0 ∧ floatOverflow ≤ p then cfg.max
+    else truncQ (capQ cfg ((cfg.base : Rat) * p))
+  | .posInf =>
+    if attempt ≤ 1 then truncQ (capQ cfg (cfg.base : Rat))      -- Pow(+Inf, 0) = 1
+    else if cfg.base < 0 then -(2 ^ 63)                           -- -Inf
+    else cfg.max                                                  -- +Inf > max, or NaN
 
 abbrev Attempt := Except Err (List Cmd)
 
@@ -231,7 +286,7 @@ structure Final where
   warned : Bool            -- the "Warning: ..." line was printed
 deriving Repr
 
-/-- `LoadDatabaseWithFallback` -/
+/-- `(*DatabaseRecovery).LoadDatabaseWithFallback` for a recovery holding `cfg` -/
 def loadWithFallback (cfg : Cfg) (f : Nat → Attempt) (backup : FileState) : Final :=
   let r := loadWithRetry cfg f
   match r.err with
@@ -242,6 +297,10 @@ def loadWithFallback (cfg : Cfg) (f : Nat → Attempt) (backup : FileState) : Fi
     | some (c, db) => { db := some db, err := none, cls := c, attempts := r.attempts, delays := r.delays, warned := true }
     | none => { db := none, err := some (.app "database" e), cls := .failed,
                 attempts := r.attempts, delays := r.delays, warned := false }
+
+/-- `recovery.NewDatabaseRecovery(raw).LoadDatabaseWithFallback(main, personal)` -/
+def recover (raw : RawCfg) (f : Nat → Attempt) (backup : FileState) : Final :=
+  loadWithFallback (sanitize raw) f backup
 
 /-- files that do not change between attempts -/
 def static (main personal : FileState) : Nat → Attempt := fun _ => loadWithPersonal main personal
